@@ -453,6 +453,8 @@ def one_pair(ctx, st, cfg, label, newsecs, tag):
         st_cls['so'].UnhosedConfigParser = st_cls['real_parser']
     ctx.count('mutation:' + label.split(':')[0].split('~')[0]); ctx.count('direction:reverse' if label.endswith('~rev') else 'direction:forward'); ctx.count('answer:' + impl_diff.split('=')[0].split(' ')[0])
     # ---- monitors ---------------------------------------------------------------------------------------
+    oldg = {g.name: g for g in old_groups}
+    newg = {g.name: g for g in fresh.options.process_group_configs} if fresh.status == 'ok' else {}
     if [g.config for g in sup.process_groups.values()] != old_groups:
         ctx.violation('reread-touched-active-groups', 'the group table changed during reloadConfig', inp)
     if fresh.status != 'ok':
